@@ -540,9 +540,10 @@ def finish(check, pid, tier, seed, shards, errors, wall):
     }
     if errors:
         ev["harness_errors"] = errors[:5]
-    with open(os.path.join(EVIDENCE_DIR, "%s.json" % pid), "w") as f:
-        json.dump(ev, f, indent=1, sort_keys=True)
-        f.write("\n")
+    if not os.environ.get("VERIF_NO_EVIDENCE"):  # set only by the sensitivity self-test (scratch trees)
+        with open(os.path.join(EVIDENCE_DIR, "%s.json" % pid), "w") as f:
+            json.dump(ev, f, indent=1, sort_keys=True)
+            f.write("\n")
     for e in kf_entries:
         print("KNOWN-FINDING: property=%s %s [%s; seen %d times in this run]" % (pid, e["what"], e["id"], known.get(e["id"], 0)))
     if final_paths:
